@@ -168,7 +168,8 @@ func (st *State) dispatchCall(fr *Frame, in ssa.CallInstruction, c *ssa.CallComm
 		}
 	}
 	// synthetic wrappers of in-module or external methods (e.g. promoted methods)
-	if callee.Synthetic != "" && callee.Blocks != nil && len(st.frames) <= st.e.maxDepth {
+	if callee.Synthetic != "" && callee.Blocks != nil && len(st.frames) <= st.e.maxDepth &&
+		(strings.HasPrefix(callee.Synthetic, "wrapper") || strings.HasPrefix(callee.Synthetic, "bound") || strings.HasPrefix(callee.Synthetic, "thunk")) {
 		st.inline(fr, in, callee, bindings, args, k)
 		return
 	}
